@@ -214,6 +214,20 @@ Proof.
 Qed.
 Print Assumptions C17_swap_twice_restores_the_exact_state_when_every_referrer_is_found.
 
+(* and the swapped state again has exact caches (the invariant bu_inv of C01: vbu_ok, ebu_ok, fbu_ok, refs_ok, lens_ok), so swaps
+   can be chained and mixed with the other operations that preserve it *)
+Theorem C17_swaps_keep_the_caches_exact : forall a b s, bu_inv s ->
+  (a < nf s -> b < nf s -> no_deleted_cell_lists s a b -> bu_inv (swap_face_indices a b s)) /\
+  (a < ne s -> b < ne s -> no_deleted_face_lists s a b -> bu_inv (swap_edge_indices a b s)) /\
+  (a < nv s -> b < nv s -> no_deleted_edge_at s a b -> bu_inv (swap_vertex_indices a b s)).
+Proof.
+  intros a b s B. split; [|split]; intros Ha Hb HD.
+  - exact (bu_inv_swap_face a b s Ha Hb B HD).
+  - exact (bu_inv_swap_edge a b s Ha Hb B HD).
+  - exact (bu_inv_swap_vertex a b s Ha Hb B HD).
+Qed.
+Print Assumptions C17_swaps_keep_the_caches_exact.
+
 (* ---- non-vacuity.  Two tetrahedra sharing face 3, ALL incidence kinds on, deferred deletion on, properties present. *)
 Definition C17_two_tets : list op :=
   [AddVertices 5; AddFaceV [0; 1; 2]; AddFaceV [0; 2; 3]; AddFaceV [0; 3; 1]; AddFaceV [1; 3; 2];
